@@ -735,25 +735,18 @@ class Solver(object):
                 dump = True
 
             # Our next step may exceed a required timestep so we adjust the
-            # timestep.
-            timestep_too_big = (tdiff > 0.0) & (tdiff < dt)
+            # timestep.  It sometimes happens that the current time is just
+            # shy of a requested output time (which may be listed more than
+            # once) and that would result in a ridiculously small dt, so such
+            # entries count as reached.
+            timestep_too_big = (tdiff > self._epsilon) & (tdiff < dt)
             if numpy.any(timestep_too_big):
-                indices = numpy.where(timestep_too_big)[0]
-                index = indices[0]
+                index = numpy.where(timestep_too_big)[0][0]
                 output_time = output_at_times[index]
-                if ((abs(output_time - self.t) < self._epsilon) and
-                   (len(indices) > 1)):
-                    index = indices[1]
-                    output_time = output_at_times[index]
-                if abs(output_time - self.t) > self._epsilon:
-                    # It sometimes happens that the current time is just
-                    # shy of the requested output time which results in a
-                    # ridiculously small dt so we skip that case.
-
-                    # Compute the new time-step to fall on the specified output
-                    # time instant and save the previous dt value.
-                    self._prev_dt = dt
-                    self.dt = float(output_time - self.t)
+                # Compute the new time-step to fall on the specified output
+                # time instant and save the previous dt value.
+                self._prev_dt = dt
+                self.dt = float(output_time - self.t)
 
         return dump
 
